@@ -523,7 +523,10 @@ func r06_7(c *RC) {
 	rotates := map[*ssa.Function]bool{}
 	for _, fn := range p.Funcs("pkg/replay") {
 		instrs(fn, func(_ *ssa.BasicBlock, _ int, in ssa.Instruction) {
-			if isRotationStore(in) {
+			// a helper that rotates and restarts the clock itself on every
+			// path is a complete rotation; only one that can return without
+			// the reset hands the obligation to its callers
+			if isRotationStore(in) && reachableAvoiding(fn, in, isReturn, isReset) != nil {
 				rotates[fn] = true
 			}
 		})
